@@ -458,9 +458,14 @@ static void vorbis_encode_residue_setup(vorbis_info *vi,
 
   codec_setup_info *ci=vi->codec_setup;
   int i;
+  vorbis_info_residue0 *r;
 
-  vorbis_info_residue0 *r=ci->residue_param[number]=
-    _ogg_malloc(sizeof(*r));
+  /* several submaps of one mapping may share a residue number (the
+     5.1 templates do); release the earlier instance instead of leaking
+     it */
+  if(ci->residue_param[number])_ogg_free(ci->residue_param[number]);
+
+  r=ci->residue_param[number]=_ogg_malloc(sizeof(*r));
 
   memcpy(r,res->res,sizeof(*r));
   if(ci->residues<=number)ci->residues=number+1;
